@@ -39,6 +39,11 @@ type HostSpec struct {
 	// that cache tokens do) and says so in "issued_at"; expires_in counts from there. Ignored
 	// for a token that would already be expired on arrival.
 	IssuedAgoMs int `json:"issued_ago_ms,omitempty"`
+	// TokenDelayMs: requests to this host's token realm take that long to arrive (network latency;
+	// virtual time inside a synctest bubble). Only usable when no other goroutine can be waiting for
+	// a mutex the caller holds meanwhile: a goroutine blocked on a sync.Mutex is not "durably
+	// blocked", so the bubble's clock would never advance (not used by the generators for that reason).
+	TokenDelayMs int `json:"token_delay_ms,omitempty"`
 	// Retry401: what the 401 given to a request that presented a Bearer token carries instead of the
 	// usual challenge: "" = the usual challenge; "nohdr" = no Www-Authenticate at all; "negotiate" = an
 	// unsupported scheme; "malformed" = an unparsable header.
@@ -224,6 +229,17 @@ func (w *World) RoundTrip(req *http.Request) (*http.Response, error) {
 	if req.Body != nil {
 		body, _ = io.ReadAll(req.Body)
 		req.Body.Close()
+	}
+	if req.URL.Path == "/token" {
+		delay := 0
+		w.mu.Lock()
+		for _, h := range w.byRealm[req.URL.Host] {
+			delay = max(delay, h.TokenDelayMs)
+		}
+		w.mu.Unlock()
+		if delay > 0 {
+			time.Sleep(time.Duration(delay) * time.Millisecond)
+		}
 	}
 	w.mu.Lock()
 	defer w.mu.Unlock()
